@@ -1,4 +1,38 @@
 import FranzVerif.Model.Consumer
-/-! C05 — theorems being written (branch prop/CONS). -/
+import FranzVerif.Proof.Consumer
+/-! C05 — read_committed never exposes aborted or open transactions. Theorems over ALL accepted
+histories of `Model.Consumer` with `c.committed = true`. -/
 namespace Props.C05
+open Model.Consumer Proof.Consumer
+
+/-- No returned record belongs to an aborted transaction. -/
+theorem no_aborted_record_returned (c : Cfg) (h : List Ev) (s : St) (hacc : run c {} (h ++ [Ev.quiesce]) = some s)
+    (hc : c.committed = true) (part off : Nat) (id : Id) (txn : Nat)
+    (hr : (part, off, id, false) ∈ returnedOf h) (hp : (id, part, off, txn) ∈ producedOf h) (hx : txn ≠ 0) :
+    (txn, false) ∉ decisionsOf h := by
+  sorry
+
+/-- No record of a still-open transaction is returned: a returned transactional record was returned
+only after its transaction's commit had been decided. -/
+theorem no_open_transaction_record_returned (c : Cfg) (h₁ h₂ : List Ev) (s : St) (part off : Nat) (id : Id) (txn : Nat)
+    (hacc : run c {} (h₁ ++ Ev.returned part off id false :: h₂ ++ [Ev.quiesce]) = some s)
+    (hc : c.committed = true)
+    (hp : (id, part, off, txn) ∈ producedOf (h₁ ++ Ev.returned part off id false :: h₂)) (hx : txn ≠ 0) :
+    (txn, true) ∈ decisionsOf h₁ := by
+  sorry
+
+/-- A control record is never returned unless KeepControlRecords is set. -/
+theorem no_control_record_unless_kept (c : Cfg) (h : List Ev) (s : St) (hacc : run c {} h = some s) (hk : c.keepCtl = false) :
+    ∀ r ∈ returnedOf h, r.2.2.2 = false := by
+  sorry
+
+/-- Completeness: at a quiescent point of a complete scenario every record of every committed
+transaction and every non-transactional record (at or after the start position) has been returned. -/
+theorem every_committed_record_returned (c : Cfg) (h : List Ev) (s : St) (hacc : run c {} (h ++ [Ev.quiesce]) = some s)
+    (hc : c.committed = true) (hcomplete : isIncomplete h = false)
+    (id : Id) (part off txn : Nat) (hp : (id, part, off, txn) ∈ producedOf h) (hoff : c.start ≤ off)
+    (hcommitted : txn = 0 ∨ (txn, true) ∈ decisionsOf h) :
+    ∃ ctl, (part, off, id, ctl) ∈ returnedOf h := by
+  sorry
+
 end Props.C05
